@@ -1,6 +1,7 @@
 mod bincase;
 mod db;
 mod dom;
+mod foreign;
 mod gen;
 mod pval;
 mod sstr;
@@ -50,6 +51,10 @@ fn main() {
         "bin-pop" => {
             let stdin = std::io::stdin();
             bincase::run_populations(&mut stdin.lock(), &mut out);
+        }
+        "foreign-bin" => {
+            let stdin = std::io::stdin();
+            foreign::run(&mut stdin.lock(), &mut out);
         }
         "export-db" => {
             db::export(rbx_reflection_database::get(), &mut out);
